@@ -305,6 +305,11 @@ def units(tier):
     for cancel in (None, 0):
         us.append({"name": "event W=2 cancel=%s" % cancel, "fn": event_scn, "params": {"W": 2, "cancel": cancel}, "budget_s": B})
     if not quick:
+        for cancel in (None, 0, 1):
+            us.append({"name": "cond W=2 T=3 cancel=%s" % cancel, "fn": cond_scn, "params": {"W": 2, "cancel": cancel, "T": 3, "J": 2}, "budget_s": B})
+            us.append({"name": "cond W=3 T=2 notify_all cancel=%s" % cancel, "fn": cond_scn, "params": {"W": 3, "cancel": cancel, "second": "all", "T": 2, "J": 1}, "budget_s": B})
+        for cancel in (0, 1, 2):
+            us.append({"name": "event W=3 T=3 cancel=%d" % cancel, "fn": event_scn, "params": {"W": 3, "cancel": cancel, "T": 3}, "budget_s": B})
         us.append({"name": "event W=3 cancel=1", "fn": event_scn, "params": {"W": 3, "cancel": 1}, "budget_s": B})
         us.append({"name": "cond W=2 cancel=0 eager", "fn": cond_scn, "params": {"W": 2, "cancel": 0, "eager": True}, "budget_s": B})
         us.append({"name": "event W=2 cancel=0 eager", "fn": event_scn, "params": {"W": 2, "cancel": 0, "eager": True}, "budget_s": B})
